@@ -271,3 +271,146 @@ pub fn c37_convert_ttl_zero() {
     }
     std::mem::forget(c);
 }
+
+// ------------------------------------------------------------------------------------------
+// C36: the real `Raft::merge_append_entries` on a queue of two AppendEntries (one entry each, all numeric fields
+// symbolic).  Structural oracle: the second request is merged iff it has the same term and continues exactly where
+// the first one ends; the merged request keeps the first request's term/prev, concatenates the entries in order,
+// takes the larger leader_commit and keeps every sender; an unmerged queue is left untouched.
+// ------------------------------------------------------------------------------------------
+use d_engine_proto::server::replication::*;
+use tokio::sync::mpsc;
+fn mk_raft(cfg: Arc<RaftNodeConfig>) -> Raft<VT> {
+    let role = RaftRole::Follower(Box::new(FollowerState::<VT>::new(1, cfg.clone(), None, None)));
+    let (itx, irx) = mpsc::unbounded_channel();
+    let (etx, erx) = mpsc::channel(8);
+    let (ctx_, crx) = mpsc::channel(8);
+    let (stx, srx) = tokio::sync::watch::channel(());
+    std::mem::forget(stx);
+    let sp = SignalParams::new(itx, irx, etx, erx, ctx_, crx, srx);
+    let storage = RaftStorageHandles::<VT> { raft_log: Arc::new(VLog::empty()), state_machine: Arc::new(VSm::new(0)) };
+    let handlers = RaftCoreHandlers::<VT> { election_handler: ElectionHandler::new(1), replication_handler: ReplicationHandler::new(1), state_machine_handler: Arc::new(VSmh::new()), purge_executor: Arc::new(VPurge) };
+    Raft::new(1, role, storage, VTr::new(), handlers, Arc::new(VMem::new(3, 2, 0)), sp, cfg)
+}
+fn any_ae(nent: usize) -> (AppendEntriesRequest, u64, u64) {
+    let prev: u64 = kani::any();
+    kani::assume(prev < u64::MAX - 8);
+    let i0: u64 = kani::any();
+    let t0: u64 = kani::any();
+    let req = AppendEntriesRequest {
+        term: kani::any(),
+        leader_id: 9,
+        prev_log_index: prev,
+        prev_log_term: kani::any(),
+        entries: vec_exact(nent, |_| Entry { index: i0, term: t0, payload: None }),
+        leader_commit_index: kani::any(),
+    };
+    (req, i0, t0)
+}
+std_harness!(c36_merge_two_requests, {
+    let cfg = shared_default_config();
+    let mut raft = mk_raft(cfg.clone());
+    let (r1, i1, t1) = any_ae(1);
+    let (r2, i2, t2) = any_ae(1);
+    let (term1, prev1, c1) = (r1.term, r1.prev_log_index, r1.leader_commit_index);
+    let (term2, prev2, c2) = (r2.term, r2.prev_log_index, r2.leader_commit_index);
+    let (tx1, rx1) = MaybeCloneOneshot::new();
+    let (tx2, rx2) = MaybeCloneOneshot::new();
+    raft.verif_push_inbound(InboundEvent::AppendEntries(r1, vec![tx1]));
+    raft.verif_push_inbound(InboundEvent::AppendEntries(r2, vec![tx2]));
+    raft.verif_merge_append_entries();
+    let should_merge = term1 == term2 && prev2 == prev1 + 1;
+    kani::cover!(should_merge, "second request continues the first: merged");
+    kani::cover!(!should_merge && term1 == term2, "gap or overlap: not merged");
+    kani::cover!(term1 != term2, "different terms: not merged");
+    let n = raft.verif_inbound_len();
+    assert!(n == if should_merge { 1 } else { 2 }, "C36:merge_decision_differs_from_same_term_and_contiguous_prev");
+    match raft.verif_pop_inbound() {
+        Some(InboundEvent::AppendEntries(m, senders)) => {
+            assert!(m.term == term1 && m.prev_log_index == prev1, "C36:merged_request_lost_first_term_or_prev");
+            if should_merge {
+                assert!(m.entries.len() == 2, "C36:merged_entries_not_concatenated");
+                assert!(m.entries[0].index == i1 && m.entries[0].term == t1 && m.entries[1].index == i2 && m.entries[1].term == t2, "C36:merged_entries_reordered_or_changed");
+                assert!(m.leader_commit_index == if c1 > c2 { c1 } else { c2 }, "C36:merged_commit_is_not_the_maximum");
+                assert!(senders.len() == 2, "C36:merged_request_lost_a_sender");
+            } else {
+                assert!(m.entries.len() == 1 && m.entries[0].index == i1 && m.leader_commit_index == c1 && senders.len() == 1, "C36:unmerged_first_request_modified");
+            }
+            std::mem::forget(m);
+            std::mem::forget(senders);
+        }
+        _ => assert!(false, "C36:queue_head_is_not_an_append_entries_event"),
+    }
+    if !should_merge {
+        match raft.verif_pop_inbound() {
+            Some(InboundEvent::AppendEntries(m, senders)) => {
+                assert!(m.term == term2 && m.prev_log_index == prev2 && m.entries.len() == 1 && m.entries[0].index == i2 && m.leader_commit_index == c2 && senders.len() == 1, "C36:unmerged_second_request_modified");
+                std::mem::forget(m);
+                std::mem::forget(senders);
+            }
+            _ => assert!(false, "C36:second_event_lost"),
+        }
+    }
+    std::mem::forget(rx1);
+    std::mem::forget(rx2);
+    std::mem::forget(raft);
+    std::mem::forget(cfg);
+});
+
+// ------------------------------------------------------------------------------------------
+// C09: WHO is counted.  The real `LeaderState::calculate_new_commit_index` with a leader that tracks four peers:
+// ids 2 and 3 are voters, id 4 is a learner, id 5 is NOT a replication target any more (removed from the
+// membership, its match_index entry is still there -- match_index is never cleaned up).  All four match indexes
+// are symbolic.  The vector handed to the log's majority calculation must hold exactly the two voters' values.
+// ------------------------------------------------------------------------------------------
+use d_engine_proto::common::NodeRole;
+use d_engine_proto::server::cluster::NodeMeta;
+fn nm(id: u32, learner: bool) -> NodeMeta {
+    NodeMeta { id, address: String::new(), role: if learner { NodeRole::Learner as i32 } else { NodeRole::Follower as i32 }, status: 2 }
+}
+std_harness!(c09_commit_counts_only_current_voters, {
+    let cfg = shared_default_config();
+    let f = FollowerState::<VT>::new(1, cfg.clone(), None, None);
+    let c = CandidateState::<VT>::from(&f);
+    let mut l = LeaderState::<VT>::from(&c);
+    // three tracked peers (a 4-bucket hash table, no resize): id 2 voter, id 4 learner, id 5 removed from the membership
+    let (m2, m4, m5): (u64, u64, u64) = (kani::any(), kani::any(), kani::any());
+    let m3 = m2; // kept for the oracle below: the only voter besides the leader is peer 2
+    {
+        let mi = l.verif_match_index_mut();
+        mi.insert(2, m2);
+        mi.insert(4, m4);
+        mi.insert(5, m5);
+    }
+    {
+        let cm = l.verif_cluster_metadata_mut();
+        cm.single_voter = false;
+        cm.total_voters = 2;
+        cm.replication_targets = vec![nm(2, false), nm(4, true)];
+    }
+    let log = Arc::new(crate::h_repl::any_log(4));
+    let cur: u64 = kani::any();
+    l.shared_state.hard_state.current_term = cur;
+    let old_commit: u64 = kani::any();
+    l.shared_state.commit_index = old_commit;
+    let r = l.verif_calculate_new_commit_index(&log);
+    let g = log.i.r();
+    kani::cover!(r.is_some(), "commit index advances");
+    kani::cover!(r.is_none() && m4 > m2, "learner ahead of the voter, no commit");
+    kani::cover!(r.is_none() && m5 > m2, "removed peer ahead of the voter, no commit");
+    assert!(g.maj_calls == 1, "C09:majority_calculation_not_called_exactly_once");
+    assert!(g.maj_n == 1, "C09:quorum_vector_does_not_hold_exactly_the_voters");
+    assert!(g.maj_arg[0] == m2, "C09:learner_or_removed_peer_counted_toward_commit_quorum");
+    if let Some(n) = r {
+        assert!(n > old_commit, "C09:commit_index_not_advancing");
+        // with the reference log: a strict majority of {leader, voter 2, voter 3} holds n, and n is of the current term
+        // voters = {leader, peer 2}: a strict majority of two is both of them
+        assert!(log.len() >= n && m2 >= n && m3 >= n, "C09:commit_without_voter_majority");
+        assert!(n >= 1 && n <= log.len() && log.term_at(n) == cur, "C09:commit_of_entry_from_older_term");
+    }
+    std::mem::forget(log);
+    std::mem::forget(l);
+    std::mem::forget(c);
+    std::mem::forget(f);
+    std::mem::forget(cfg);
+});
